@@ -59,6 +59,12 @@ function genFunc (rng, P, depth, forced) {
       else m.body = genBlock(rng, mctx, 1, mk === 'staticBlock' ? 'static-block' : mk === 'ctor' ? 'constructor' : mk === 'getter' ? 'getter' : 'method')
       f.members.push(m)
     }
+    // a derived class: when it has a constructor, its first statement is `super(<instrumented expression>)`
+    if (rng.chance(1, 3)) {
+      f.derived = true
+      const c = f.members.find(m => m.kind === 'ctor')
+      if (c) c.superExpr = genOpExpr(rng, { P, f: c, depth: depth + 1, loop: 0 }, 1, 'constructor')
+    }
     return f
   }
   const label = f.isGen ? 'generator' : f.isAsync ? 'async' : kind.startsWith('arrow') ? 'arrow-body' : 'body'
@@ -440,13 +446,13 @@ function render (P) {
         return
       }
       case 'class': {
-        emit(`class ${f.name} {`); ind++
+        emit(f.derived ? `class ${f.name} extends $.K {` : `class ${f.name} {`); ind++
         for (const m of f.members) {
           switch (m.kind) {
             case 'field': emit(`${m.name} = ${ex(m.expr, '(this.A || (this.A = $.a()))')};`); break
             case 'staticField': emit(`static ${m.name} = ${ex(m.expr, `(${f.name}.SA || (${f.name}.SA = $.a()))`)};`); break
             case 'staticBlock': emit('static {'); ind++; emit('const act = $.a();'); prelude('act', m); block(m.body, 'act', { ...m, noReturn: true }); ind--; emit('}'); break
-            case 'ctor': emit('constructor(act) {'); ind++; prelude('act', m); block(m.body, 'act', { ...m, noReturn: true }); ind--; emit('}'); break
+            case 'ctor': emit('constructor(act) {'); ind++; if (f.derived) emit(m.superExpr ? `super(${ex(m.superExpr, 'act')});` : 'super(0);'); prelude('act', m); block(m.body, 'act', { ...m, noReturn: true }); ind--; emit('}'); break
             case 'getter': emit(`get ${m.name}() {`); ind++; emit('const act = $.a();'); prelude('act', m); block(m.body, 'act', m); ind--; emit('}'); break
             case 'static': emit(`static ${m.name}(act) {`); ind++; prelude('act', m); block(m.body, 'act', m); ind--; emit('}'); break
             default: emit(`${m.name}(act) {`); ind++; prelude('act', m); block(m.body, 'act', m); ind--; emit('}')
